@@ -393,7 +393,7 @@ def gen_trace(rng, check, population, tier='quick'):
         if r.random() < 0.6:
             cfg['faults'].add(fk)
     if population == 'corrupt':
-        sub = [k for k in set(CORRUPT_KINDS) if r.random() < 0.6] or \
+        sub = [k for k in sorted(set(CORRUPT_KINDS)) if r.random() < 0.6] or \
             ['field_rewrite']
         cfg['corrupt_kinds'] = sorted(
             k for k in CORRUPT_KINDS if k in sub)
